@@ -26,8 +26,34 @@ func stageRef(c stage.Cfg) ref {
 	add := func(n string, v any) { r.outs[n] = append(r.outs[n], fmt.Sprint(v)) }
 	call := func(x int) { r.calls = append(r.calls, fmt.Sprint(x)) }
 	fails := func(x int) bool { return c.Mode != "pure" && stage.Bit(c.Mask, x) }
+	if c.Any {
+		// identity functions over `any` elements: every output is the input, nil interface values included
+		r.names = []string{"got"}
+		switch c.Stage {
+		case "partition":
+			r.names = []string{"l", "r"}
+			for x := 1; x <= c.K; x++ {
+				add("l", stage.AnyElem(x))
+			}
+		case "unfold":
+			r.infinite = true
+			for x := 1; x <= genHorizon; x++ {
+				add("got", stage.AnyElem(x))
+			}
+		default:
+			for x := 1; x <= c.K; x++ {
+				add("got", stage.AnyElem(x))
+			}
+		}
+		for _, n := range r.names {
+			if r.outs[n] == nil {
+				r.outs[n] = []string{}
+			}
+		}
+		return r
+	}
 	switch c.Stage {
-	case "map":
+	case "map", "map2":
 		r.names = []string{"got"}
 		for x := 1; x <= c.K; x++ {
 			call(x)
@@ -155,7 +181,7 @@ func foldAff(k int) stage.Aff {
 }
 
 func hasErrCh(st string) bool {
-	return st == "map" || st == "fmap" || st == "unfold" || st == "emit"
+	return st == "map" || st == "map2" || st == "fmap" || st == "unfold" || st == "emit"
 }
 
 func stageName(c stage.Cfg) string {
@@ -187,6 +213,12 @@ func stageName(c stage.Cfg) string {
 	if c.ErrRd != "" {
 		fmt.Fprintf(&b, " err=%s", c.ErrRd)
 	}
+	if c.Idle {
+		b.WriteString(" producer-goes-idle")
+	}
+	if c.Any {
+		b.WriteString(" elements=any/nil")
+	}
 	return b.String()
 }
 
@@ -195,6 +227,10 @@ func joinRef(c stage.Cfg) (per [][]string, all []string) {
 	for i, n := range c.Inputs {
 		var xs []string
 		for j := 0; j < n; j++ {
+			if c.Any && i == 0 && j == 0 {
+				xs = append(xs, "<nil>")
+				continue
+			}
 			xs = append(xs, fmt.Sprint(10*(i+1)+1+j))
 		}
 		per = append(per, xs)
